@@ -504,6 +504,20 @@ func (p *partition) newSubscribeLoop(ctx context.Context, groupID, consumerID st
 				}
 				return
 			}
+
+			// The stop offset itself might no longer be in the log, e.g. due
+			// to compaction or retention. In this case, the subscription
+			// ends at the first message past it, which is not delivered.
+			if !reverse && stopOffset != waitForNewMessages && offset > stopOffset {
+				s := status.New(codes.ResourceExhausted, "Stop offset reached")
+
+				select {
+				case errCh <- s:
+				case <-cancel:
+				}
+				return
+			}
+
 			msgValue := m.Value()
 
 			headers := m.Headers()
